@@ -198,7 +198,15 @@ class SymSeq:
         if start < 0:
             start = max(0, n + start)
         stop = n if end is None else min(n, self._fix_index(end) if self._fix_index(end) >= 0 else n + self._fix_index(end))
+        if m == 0:
+            return start if start <= n else -1
+        p0 = pat[0]
+        c = self.c
+        p0int = isinstance(p0, int)
         for i in range(start, stop - m + 1):
+            x = c[i]
+            if p0int and x.__class__ is int and x != p0:
+                continue
             if self._decide(self._match_expr(i, pat)):
                 return i
         return -1
@@ -302,7 +310,14 @@ class SymSeq:
         out = []
         start = i = 0
         n = len(self.c)
+        s0 = sep[0]
+        s0int = isinstance(s0, int)
+        cc = self.c
         while i <= n - m and maxsplit != 0:
+            x = cc[i]
+            if s0int and x.__class__ is int and x != s0:
+                i += 1
+                continue
             if self._decide(self._match_expr(i, sep)):
                 out.append(self._mk(self.c[start:i]))
                 i += m
@@ -788,7 +803,11 @@ def format_value(v, conv, spec):
 
 
 def render_int(v, spec="", conv=None):
-    """decimal rendering of a SymInt: concretises (forks on the model value)"""
+    """decimal rendering of a SymInt: concretises (forks on the model value) unless the harness declared
+    number formatting in messages to be out of scope (Engine.opaque_ints): then a fixed placeholder"""
+    if active() and getattr(E(), "opaque_ints", False):
+        E().path_notes.append("opaque rendering of a symbolic integer in a message")
+        return "#"
     return format(v.__index__(), spec)
 
 
@@ -818,6 +837,18 @@ def digits_value(digs, base):
                 dz = d
             acc = acc * base + dz
         return mkint(z3.BV2Int(z3.simplify(acc)))
+    const = 0
+    terms = []
+    import sys
+    lim = sys.get_int_max_str_digits()
+    sys.set_int_max_str_digits(0)  # z3.IntVal renders python ints through str(); restored below
+    try:
+        return _digits_linear(digs, base, n)
+    finally:
+        sys.set_int_max_str_digits(lim)
+
+
+def _digits_linear(digs, base, n):
     const = 0
     terms = []
     for i, d in enumerate(digs):
